@@ -29,17 +29,19 @@ def run(fw):
     fw.assumptions += ['state = result of %d addIssue calls with symbolic levels, then one of {addIssue(any level), removeAllIssues, removeError} with symbolic choice' % n,
                        'removeError (private) is exercised under its callers\' contract: the removed error is the last issue of the list; the two call sites in importer.cpp are re-checked textually on every run',
                        'outside: the ReferenceRule table (134 x 4 strings: no solver verdict within budget, measured), AnyCellmlElement accessors, "a failing result is always explained" for parser/validator/analyser/importer runs']
-    defs = ['VSTD_STR_CAP=7', 'VSTD_VEC_CAP=8', 'NISSUES=%d' % n]
-    m = fw.build_model('c15', H, ['h_logger'], sources=SRCS, defines=defs)
-    mw = fw.build_model('c15w', H, ['h_logger'], sources=SRCS, defines=defs + ['WITNESS'])
-    us = fw.unwindset(m, 'h_logger', vfw.std_rules())
+    def depth(k):
+        defs = ['VSTD_STR_CAP=7', 'VSTD_VEC_CAP=8', 'NISSUES=%d' % k]
+        m = fw.build_model('c15_%d' % k, H, ['h_logger'], sources=SRCS, defines=defs)
+        mw = fw.build_model('c15w_%d' % k, H, ['h_logger'], sources=SRCS, defines=defs + ['WITNESS'])
+        us = fw.unwindset(m, 'h_logger', vfw.std_rules())
 
-    def a(_):
-        r = fw.cbmc(m, 'h_logger', unwind=n + 7, unwindset=us, timeout=1500, label='h_logger[%d issues + 1 operation]' % n, symbolic='%d issue levels, the operation, its level, an index' % n)
-        fw.log('h_logger', r['status'], r['wall'], [(f['msg'], f['inputs']) for f in r['failed']][:4])
-        fw.handle(r, H, defs)
+        def a(_):
+            r = fw.cbmc(m, 'h_logger', unwind=k + 7, unwindset=us, timeout=1500, label='h_logger[%d issues + 1 operation]' % k, symbolic='%d issue levels, the operation, its level, an index' % k)
+            fw.log('h_logger', k, r['status'], r['wall'], [(f['msg'], f['inputs']) for f in r['failed']][:4])
+            fw.handle(r, H, defs)
 
-    def b(_):
-        fw.witness(mw, 'h_logger', unwind=n + 7, unwindset=us, timeout=1500, label='witness:h_logger')
-    vfw.pmap(lambda f: f(0), [a, b], 2)
-    fw.differential(m, 'h_logger', H, seeds=60, defines=defs)
+        def b(_):
+            fw.witness(mw, 'h_logger', unwind=k + 7, unwindset=us, timeout=1500, label='witness:h_logger[%d]' % k)
+        vfw.pmap(lambda f: f(0), [a, b], 2)
+        fw.differential(m, 'h_logger', H, seeds=40, defines=defs)
+    vfw.pmap(depth, [n - 1, n], 2)
